@@ -18,9 +18,23 @@ import (
 	"verif/sim/simrt"
 )
 
-type elemErr struct{ id int }
+// elemErr is the error of a failing element. Its kind varies what the error
+// wraps: nothing, context.Canceled or context.DeadlineExceeded (a per-element
+// time-out of the user's own) — which error a function fails with must not
+// matter to the stage.
+type elemErr struct{ id, kind int }
 
 func (e elemErr) Error() string { return fmt.Sprintf("err#%d", e.id) }
+
+func (e elemErr) Unwrap() error {
+	switch e.kind {
+	case 1:
+		return context.Canceled
+	case 2:
+		return context.DeadlineExceeded
+	}
+	return nil
+}
 
 func errID(err error) int {
 	if ee, ok := err.(elemErr); ok {
@@ -418,11 +432,12 @@ func (s *Sys) indexOf(x int) int {
 // positions.
 func (s *Sys) elemFn() func(int) (int, error) {
 	return func(x int) (int, error) {
+		s := curSys(s.E) // the stage in use now (a morphism value may be shared by two uses)
 		idx := s.E.Enter(s.Calls, x)
 		defer s.E.Leave(s.Calls, idx)
 		if s.P.Mode != "pure" && s.fails(s.pos(idx, x)) {
 			s.E.Fault("fn_error")
-			return 0, elemErr{x}
+			return 0, elemErr{x, s.P.X("err_kind")}
 		}
 		return mapImg(s.P.Fn, x), nil
 	}
@@ -430,6 +445,7 @@ func (s *Sys) elemFn() func(int) (int, error) {
 
 func (s *Sys) predFn() func(int) (bool, error) {
 	return func(x int) (bool, error) {
+		s := curSys(s.E) // the stage in use now (a morphism value may be shared by two uses)
 		defer s.E.Leave(s.Calls, s.E.Enter(s.Calls, x))
 		return pred(s.P.Fn, s.P.FnArg, x), nil
 	}
@@ -437,6 +453,7 @@ func (s *Sys) predFn() func(int) (bool, error) {
 
 func (s *Sys) visitFn() func(int) (int, error) {
 	return func(x int) (int, error) {
+		s := curSys(s.E) // the stage in use now (a morphism value may be shared by two uses)
 		defer s.E.Leave(s.Calls, s.E.Enter(s.Calls, x))
 		return x, nil
 	}
@@ -444,11 +461,12 @@ func (s *Sys) visitFn() func(int) (int, error) {
 
 func (s *Sys) arrowFn() func(context.Context, int, chan<- int) error {
 	return func(ctx context.Context, x int, out chan<- int) error {
+		s := curSys(s.E)
 		idx := s.E.Enter(s.Calls, x)
 		defer s.E.Leave(s.Calls, idx)
 		if s.P.Mode != "pure" && s.fails(s.pos(idx, x)) {
 			s.E.Fault("fn_error")
-			return elemErr{x}
+			return elemErr{x, s.P.X("err_kind")}
 		}
 		for _, y := range fmapImg(s.P.Fn, x) {
 			sel := simrt.Select("fn.emit", false, simrt.Snd(out, y), simrt.R(ctx.Done()))
@@ -464,6 +482,7 @@ func (s *Sys) arrowFn() func(context.Context, int, chan<- int) error {
 // previous seed); fails on planned *call* indices.
 func (s *Sys) genFn(unfold bool) func(int) (int, error) {
 	return func(x int) (int, error) {
+		s := curSys(s.E)
 		idx := s.E.Enter(s.Calls, x)
 		if idx < 0 {
 			return 0, nil
@@ -471,13 +490,39 @@ func (s *Sys) genFn(unfold bool) func(int) (int, error) {
 		defer s.E.Leave(s.Calls, idx)
 		if s.P.Mode != "pure" && s.fails(idx) {
 			s.E.Fault("fn_error")
-			return 0, elemErr{idx}
+			return 0, elemErr{idx, s.P.X("err_kind")}
 		}
 		if unfold {
 			return unfoldF(s.P.Fn, x), nil
 		}
 		return emitF(s.P.Fn, x), nil
 	}
+}
+
+// curSys is the stage under test at this moment of the run.
+func curSys(e *driver.Env) *Sys {
+	switch d := e.Data.(type) {
+	case *Sys:
+		return d
+	case *c10State:
+		return d.s
+	}
+	return nil
+}
+
+// shared returns the morphism value built for an earlier use of the stage in
+// the same run, if any: a caller may well keep one pipe.Lift(f) value and
+// hand it to several stages.
+func shared[T any](e *driver.Env, key string, mk func() T) T {
+	if e.Shared == nil {
+		e.Shared = map[string]any{}
+	}
+	if v, ok := e.Shared[key]; ok {
+		return v.(T)
+	}
+	v := mk()
+	e.Shared[key] = v
+	return v
 }
 
 func pipeF[B any](mode string, f func(int) (B, error)) pipe.F[int, B] {
@@ -646,13 +691,13 @@ func BuildStage(e *driver.Env, clause string) *Sys {
 		par := p.Par
 		switch stage {
 		case "Map":
-			s.outErr(fork.Map(ctx, par, s.input(0), forkF(p.Mode, s.elemFn())))
+			s.outErr(fork.Map(ctx, par, s.input(0), shared(e, "fork.elem."+p.Mode, func() fork.F[int, int] { return forkF(p.Mode, s.elemFn()) })))
 		case "FMap":
 			var ff fork.FF[int, int]
 			if p.Mode == "try" {
-				ff = fork.TryF(s.arrowFn())
+				ff = shared(e, "fork.tryf", func() fork.FF[int, int] { return fork.TryF(s.arrowFn()) })
 			} else {
-				ff = fork.LiftF(s.arrowFn())
+				ff = shared(e, "fork.liftf", func() fork.FF[int, int] { return fork.LiftF(s.arrowFn()) })
 			}
 			s.outErr(fork.FMap(ctx, par, s.input(0), ff))
 		case "Filter":
@@ -676,26 +721,26 @@ func BuildStage(e *driver.Env, clause string) *Sys {
 	}
 	switch stage {
 	case "Map":
-		s.outErr(pipe.Map(ctx, s.input(0), pipeF(p.Mode, s.elemFn())))
+		s.outErr(pipe.Map(ctx, s.input(0), shared(e, "pipe.elem."+p.Mode, func() pipe.F[int, int] { return pipeF(p.Mode, s.elemFn()) })))
 	case "StdErr":
 		out, exx := pipe.Map(ctx, s.input(0), pipeF(p.Mode, s.elemFn()))
 		s.consumeOut(pipe.StdErr(out, exx))
 	case "FMap":
 		var ff pipe.FF[int, int]
 		if p.Mode == "try" {
-			ff = pipe.TryF(s.arrowFn())
+			ff = shared(e, "pipe.tryf", func() pipe.FF[int, int] { return pipe.TryF(s.arrowFn()) })
 		} else {
-			ff = pipe.LiftF(s.arrowFn())
+			ff = shared(e, "pipe.liftf", func() pipe.FF[int, int] { return pipe.LiftF(s.arrowFn()) })
 		}
 		s.outErr(pipe.FMap(ctx, s.input(0), ff))
 	case "Filter":
-		s.consumeOut(pipe.Filter(ctx, s.input(0), pipeF("lift", s.predFn())))
+		s.consumeOut(pipe.Filter(ctx, s.input(0), shared(e, "pipe.pred", func() pipe.F[int, bool] { return pipeF("lift", s.predFn()) })))
 	case "Take":
 		s.consumeOut(pipe.Take(ctx, s.input(0), p.N))
 	case "TakeWhile":
-		s.consumeOut(pipe.TakeWhile(ctx, s.input(0), pipeF("lift", s.predFn())))
+		s.consumeOut(pipe.TakeWhile(ctx, s.input(0), shared(e, "pipe.pred", func() pipe.F[int, bool] { return pipeF("lift", s.predFn()) })))
 	case "Partition":
-		l, r := pipe.Partition(ctx, s.input(0), pipeF("lift", s.predFn()))
+		l, r := pipe.Partition(ctx, s.input(0), shared(e, "pipe.pred", func() pipe.F[int, bool] { return pipeF("lift", s.predFn()) }))
 		s.consumeOut(l)
 		s.consumeOut2(r)
 	case "Fold":
@@ -730,8 +775,19 @@ func BuildStage(e *driver.Env, clause string) *Sys {
 		for i := range p.Inputs {
 			ins = append(ins, s.input(i))
 		}
+		if p.X("dup_input") == 1 && len(ins) > 0 {
+			// the same channel handed to Join twice: two copiers share it
+			ins = append(ins, ins[0])
+		}
 		s.joinChk = joinOnline(s, clause+".prefix")
-		s.consumeOut(pipe.Join(ctx, ins...))
+		joined := pipe.Join(ctx, ins...)
+		// the caller owns its slice again as soon as Join has returned
+		closed := make(chan int)
+		close(closed)
+		for i := range ins {
+			ins[i] = closed
+		}
+		s.consumeOut(joined)
 	case "Throttling":
 		s.consumeOut(pipe.Throttling(ctx, s.input(0), p.N, freq))
 	case "Emit":
